@@ -139,6 +139,10 @@ class Gen9(progen.Gen):
                     t = self.arg_order_call(fn, h, ch.choice(ws), two_r, d)
                     if t is not None:
                         return t
+                if h[4] and ch.bool(0.45):
+                    t = self.read_then_call(fn, h, d)
+                    if t is not None:
+                        return t
                 if h[4] and ch.bool(0.5):
                     # the same mutating helper twice in one expression, on the same list where possible
                     a = self.call_text(fn, h, d)
@@ -147,6 +151,25 @@ class Gen9(progen.Gen):
                     return f'({a} {ch.choice(["-", "+", "*", "/"])} {b})'
                 return self.call_text(fn, h, d)
         return super().expr_R(fn, d)
+
+    def read_then_call(self, fn, h, d):
+        """`L[i] + h(L, ...)`: the statement reads a cell of L before it calls h, which writes L (directly or only
+        through a helper it calls)."""
+        ch = self.ch
+        hl = [pn for pn, pt in h[1] if pt == 'L']
+        if not hl:
+            return None
+        need = max(h[5].get(pn, 0) for pn in hl)
+        cands = [l for l in self.vars_of(fn, 'L') if fn.len_lb.get(l, 0) >= max(1, need)]
+        if not cands:
+            return None
+        L = ch.choice(cands)
+        args = [L if pt == 'L' else self.expr_R(fn, 0) for pn, pt in h[1]]
+        read = ch.choice([f'{L}[0]', f'{L}[{fn.len_lb[L] - 1}]', f'sum({L})', f'max({L})'])
+        self.calls.setdefault(fn.name, set()).add(h[0])
+        self.features.update({'helper-call', 'helper-mutates-list', 'list-read-before-writing-call',
+                              'helper-with-own-ctx' if h[3] else 'helper-without-ctx'})
+        return f'({read} {ch.choice(["+", "-", "*"])} {h[0]}({", ".join(args)}))'
 
     def arg_order_call(self, fn, h, g, r_idx, d):
         """`h(g(L, ...), L[i], ...)`: g writes L, a later argument of h reads it -- the order in which the
@@ -521,7 +544,27 @@ class Gen9(progen.Gen):
             self.features.add('shadows-global')
         nst = ch.int(2, p.max_stmts) if is_main else ch.int(1, 3)
         mutates = False
-        if not is_main and p.helpers_mutate and minlen and ch.bool(0.7):
+        writers = [g for g in self.helpers if g[4] and g[2] == 'R' and any(pt == 'L' for _, pt in g[1])]
+        mine = [pn for pn in sorted(minlen)]
+        if not is_main and p.helpers_mutate and writers and mine and ch.bool(0.4):
+            # a relay: this helper writes the caller's list ONLY through a helper it calls (no store of its own)
+            g = ch.choice(writers)
+            need = max([g[5].get(pn, 0) for pn, pt in g[1] if pt == 'L'] + [1])
+            ok = [pn for pn in mine if minlen[pn] >= need]
+            if not ok:
+                pn0 = mine[0]
+                minlen[pn0] = need
+                fn.len_lb[pn0] = need
+                ok = [pn0]
+            L = ch.choice(ok)
+            gargs = [L if pt == 'L' else self.expr_R(fn, 1) for pn, pt in g[1]]
+            v = fn.fresh('v')
+            body.append(f'    {v} = {g[0]}({", ".join(gargs)})')
+            fn.env[v] = 'R'
+            self.calls.setdefault(name, set()).add(g[0])
+            self.features.add('helper-writes-only-through-callee')
+            mutates = True
+        elif not is_main and p.helpers_mutate and minlen and ch.bool(0.7):
             l = ch.choice(sorted(minlen))
             if minlen[l] > 0:
                 body.append(f'    {l}[{ch.int(0, minlen[l] - 1)}] = {self.expr_R(fn, 2)}')
